@@ -304,3 +304,8 @@ for root_kind in (Unsigned, Signed, BitVector):
                 con.cases.append(c)
 
 M.NS["VhdlScope"] = VhdlScope
+
+
+# C13 ("views of an object (.unsigned / .signed / .bitvector ...) alias the same storage"): the emitted text of a cast view must have
+# the VHDL kind of the view's Python class
+contract("cohdl._compiler.backend.vhdl._vhdl_repr:VhdlScope.format_vhdl_cast", ("C13",))
